@@ -1,13 +1,18 @@
 #!/bin/sh
-# usage: try_seed.sh <seed dir with patch.diff, demo.py> <property> [tier]
-# applies the patch to /repo, runs the demo (must fail), runs the check (must exit 1), undoes the patch.
-D="$1"; P="$2"; T="${3:-quick}"
-cd /repo || exit 9
-if [ -n "$(git status --porcelain)" ]; then echo "repo dirty"; exit 9; fi
+# usage: try_seed.sh <seed dir with patch.diff, demo.py> <property> [tier] [seed]
+# applies the patch in a scratch worktree of /repo's HEAD (never /repo itself, so concurrently running checks are not
+# disturbed), runs the demo (must fail), runs the check against the worktree (must exit 1) with evidence/replays sent
+# to a scratch directory, removes both.
+D="$(cd "$1" && pwd)"; P="$2"; T="${3:-quick}"; S="${4:-0}"
+W=/tmp/wt/try_$$; O=/tmp/wt/out_$$
+git -C /repo worktree add --detach -f "$W" HEAD >/dev/null 2>&1 || { echo "worktree failed"; exit 9; }
+trap 'git -C /repo worktree remove --force "$W" >/dev/null 2>&1; rm -rf "$O"' EXIT
+cd "$W" || exit 9
 git apply --check "$D/patch.diff" || { echo "PATCH DOES NOT APPLY"; exit 8; }
 git apply "$D/patch.diff"
-PYTHONPATH=/repo timeout 600 /venv/bin/python "$D/demo.py" >/tmp/seed_demo.out 2>&1; echo "demo exit on mutant: $?"
-cd /verif && ./check "$P" --tier "$T" > /tmp/seed_check.out 2>&1; RC=$?
-grep -c VIOLATION /tmp/seed_check.out | sed 's/^/violation lines: /'; grep VIOLATION /tmp/seed_check.out | head -3 | cut -c1-400; tail -1 /tmp/seed_check.out | cut -c1-300
-cd /repo && git checkout -- . && git status --porcelain | head -3
+if [ -z "$NODEMO" ]; then PYTHONPATH="$W" timeout 600 /venv/bin/python "$D/demo.py" >/dev/null 2>&1; echo "demo exit on mutant: $?"; fi
+mkdir -p "$O"
+cd /verif && VERIF_OUT="$O" VERIF_REPO="$W" ./check "$P" --tier "$T" --seed "$S" > "$O/check.out" 2>&1; RC=$?
+grep -c VIOLATION "$O/check.out" | sed 's/^/violation lines: /'
+grep VIOLATION "$O/check.out" | sed 's/replay=[^ ]* //' | head -${NV:-3} | cut -c1-400; tail -1 "$O/check.out" | cut -c1-300
 echo "check exit: $RC"
